@@ -76,7 +76,9 @@ func goTokens(src string) []string {
 		}
 		toks = append(toks, tk{tok, lit, fset.Position(pos).Line})
 	}
-	identAt := func(i int, name string) bool { return i < len(toks) && toks[i].tok == token.IDENT && toks[i].lit == name }
+	identAt := func(i int, name string) bool {
+		return i < len(toks) && toks[i].tok == token.IDENT && toks[i].lit == name
+	}
 	tokAt := func(i int, t token.Token) bool { return i < len(toks) && toks[i].tok == t }
 	// sel matches a.b( at i and returns the index of the opening parenthesis
 	sel := func(i int, a, b string) (int, bool) {
@@ -533,7 +535,7 @@ func templateSpec(rng interface{ Intn(int) int }) []byte {
 		paths[path] = map[string]any{[]string{"get", "post", "delete"}[rng.Intn(3)]: op}
 	}
 	spec, _ := json.Marshal(map[string]any{"openapi": "3.0.3", "info": map[string]any{"title": "t", "version": "1"}, "paths": paths,
-		"security": []any{map[string]any{"bearerAuth": []string{"g"}}},
+		"security":   []any{map[string]any{"bearerAuth": []string{"g"}}},
 		"components": map[string]any{"securitySchemes": map[string]any{"bearerAuth": map[string]any{"type": "http", "scheme": "bearer"}, "apiKey": map[string]any{"type": "apiKey", "in": "header", "name": "X-Key"}}}})
 	return spec
 }
